@@ -386,6 +386,11 @@ void generate_math_utility_builtins(StringBuilder *sb) {
     sb_append(sb, "}\n\n");
 
     /* String operations */
+    sb_append(sb, "/* str_length returns int (signed 64-bit), never size_t */\n");
+    sb_append(sb, "static int64_t nl_str_length(const char* s) {\n");
+    sb_append(sb, "    return (int64_t)strlen(s);\n");
+    sb_append(sb, "}\n\n");
+
     sb_append(sb, "/* String concatenation - use strnlen for safety */\n");
     sb_append(sb, "static const char* nl_str_concat(const char* s1, const char* s2) {\n");
     sb_append(sb, "    /* Safety: Bound string scan to 1MB */\n");
